@@ -153,16 +153,33 @@ func IDs() []string {
 // memGuard ends a worker whose heap outgrows every legitimate unit by an order of magnitude (the sandbox has
 // no memory limit and a machine-wide out-of-memory kill takes unrelated processes with it). The master
 // reports the unit as stopped by a cap (not exhaustive), restarts the worker and goes on.
-const memGuardBytes = 6 << 30
 const memGuardExit = 97
 
+// memGuardBytes: the workers of one check share about 40 GB; a single worker never gets less than 2.5 GB
+// (the largest legitimate unit, the deep fingerprint of the configuration, needs well under 1 GB).
+func memGuardBytes() uint64 {
+	nw, _ := strconv.Atoi(os.Getenv("VERIF_NWORKERS"))
+	if nw < 1 {
+		nw = 16
+	}
+	b := uint64(40<<30) / uint64(nw)
+	if b < 2560<<20 {
+		b = 2560 << 20
+	}
+	if b > 8<<30 {
+		b = 8 << 30
+	}
+	return b
+}
+
 func memGuard() {
+	limit := memGuardBytes()
 	go func() {
 		var ms runtime.MemStats
 		for {
-			time.Sleep(500 * time.Millisecond)
+			time.Sleep(250 * time.Millisecond)
 			runtime.ReadMemStats(&ms)
-			if ms.HeapAlloc > memGuardBytes {
+			if ms.HeapAlloc > limit {
 				fmt.Fprintf(os.Stderr, "verif: memory guard: heap %d MB\n", ms.HeapAlloc>>20)
 				os.Exit(memGuardExit)
 			}
@@ -329,7 +346,7 @@ func MasterMain(c *Check, ctx *Ctx, verifDir string, unitFilter string) int {
 			cmd := exec.Command(self, "-prop", c.ID, "-tier", ctx.Tier, "-seed", fmt.Sprint(ctx.Seed), "-worker")
 			var errBuf tailBuf
 			cmd.Stderr = &errBuf
-			cmd.Env = append(os.Environ(), "VERIF_WORKER=1")
+			cmd.Env = append(os.Environ(), "VERIF_WORKER=1", fmt.Sprintf("VERIF_NWORKERS=%d", nw))
 			stdin, _ := cmd.StdinPipe()
 			stdout, _ := cmd.StdoutPipe()
 			if err := cmd.Start(); err != nil {
